@@ -338,6 +338,13 @@ func TestHistoryTriangle(t *testing.T) {
 		for _, rev := range revs {
 			kinds[rev.Kind.String()]++
 		}
+		kinds["objstm-tight"] += res.ObjStmTight
+		kinds["objstm-adjacent"] += res.ObjStmAdjacent
+		for _, ts := range res.TableSubs {
+			if ts.Count != len(ts.Entries) || ts.First != ts.Entries[0] {
+				t.Fatalf("seed %d: TableSub inconsistent: %+v", seed, ts)
+			}
+		}
 		for _, w := range res.XRefW {
 			if w[0] == 0 && w != [3]int{} {
 				kinds["w0=0"]++
@@ -353,6 +360,9 @@ func TestHistoryTriangle(t *testing.T) {
 	}
 	sort.Strings(ks)
 	t.Log(ks)
+	if kinds["objstm-tight"] < 100 || kinds["objstm-adjacent"] < 100 {
+		t.Errorf("object streams without separators are not exercised: %v", ks)
+	}
 }
 
 func TestBadLengths(t *testing.T) {
